@@ -91,6 +91,22 @@ CLAIMED = {
              "explicit bounds, pointers, sizeof) are compiled for three targets and the emitted code units compared with an independent encoder; every octal and hex escape value 0..255 is "
              "checked for every prefix (plain ones valued as char per target); 24 malformed UTF-8 sequences x 5 prefixes x 2 positions and 16 malformed literals must be diagnosed.",
         note="Not asserted (implementation-defined or pinned otherwise by the test suite): signedness of u8 string elements, out-of-range escapes in strings, multi-character constants, non-ASCII in unprefixed/u8 character constants."),
+    "C12": dict(
+        category="exploration", design_ref="DESIGN.md 3/C12, 4",
+        engine="hypothesis+enumeration",
+        technique="differential property-based testing of macro expansion: generated macro sets and uses, cproc's token stream (hook H1) against the expansion on which gcc's cpp and clang -E agree; IL of program vs IL of its expanded text; redefinition accept/reject; catalogue of invocation errors",
+        text="Generated macro sets (object/function-like, variadic, #, self/mutual reference, undef/redefine histories) applied in free token sequences: the token stream cproc-qbe -E delivers must equal the "
+             "one both reference preprocessors produce; programs using arithmetic macros must compile to the same IL as their cpp-expanded text; redefinitions are accepted iff benign (both references agree); "
+             "31 malformed definitions/invocations/unsupported directives must be rejected.",
+        note="Used only where cpp and clang agree; ##, #if*, #include, _Pragma, __VA_OPT__, predefined macros are documented as unimplemented and not generated (their rejection is checked); one recorded finding "
+             "(stringizing an argument that contains a function-like invocation) is steered away from by generating '#' only in units without nested invocations."),
+    "C13": dict(
+        category="exploration", design_ref="DESIGN.md 3/C13, 4",
+        engine="enumeration+hypothesis",
+        technique="bounded-exhaustive enumeration of punctuator strings and keyword perturbations plus Hypothesis token texts with a backslash-newline inserted at every position, tokenised by cproc (hook H1) and by an independent C11 6.4 reference lexer",
+        text="All strings of length <= 3 over the 25-character punctuator alphabet (plus 10 % of length 4 per seed; all 406 900 in thorough), every keyword spelling of C11/C23/GNU alternates with all one-character "
+             "perturbations (also hook-free through acceptance of `int <word> = 1;`), and generated texts of all token classes with comments and every single-splice variant are tokenised identically by cproc and clex.py.",
+        note="clex.py is the oracle (written from C11 6.4; digraphs are documented as not implemented and excluded); hook H1 is trusted to print what next() returns, cross-checked hook-free for keywords."),
 }
 
 NOT_YET = "check not built yet in this round (planned per DESIGN.md section 10); no claim is made"
@@ -101,7 +117,7 @@ m = dict(
     hooks=dict(guard="CPROC_VERIF",
                enable="vlib/build.py builds /repo out of tree through its Makefile with CFLAGS containing -DCPROC_VERIF (variants hook/asan/fuzzobj)",
                baseline_off_cmd="cd /repo && make && make check",
-               source_commits=[], add_only=True),
+               source_commits=["verif hook H1: token-per-line dump under -E when CPROC_VERIF_TOKDUMP is set (guard CPROC_VERIF)"], add_only=True),
     engines=[
         dict(name="hypothesis", path="vlib/runner.py", serves_properties=[], kind_free_text="Hypothesis 6.168 strategies driven by a 16-process worker pool; shrinking; replay files"),
         dict(name="libfuzzer", path="native/fuzz_harness.c", serves_properties=["C19"], kind_free_text="clang 14 libFuzzer, fork-per-input harness with shared coverage counters, ASan+UBSan"),
